@@ -237,15 +237,22 @@ class SymMember:
     where control flow really depends on which member it is (==, hash, name); .value and the class's own methods
     (as_bits ...) work without forking."""
 
-    def __init__(self, cls, fun):
+    def __init__(self, cls, fun, raw=None, dontcare=None):
         object.__setattr__(self, "_cls", cls)
         object.__setattr__(self, "_fun", fun)
+        object.__setattr__(self, "_raw", raw)  # the argument value at every point of the table
+        object.__setattr__(self, "_dc", dontcare)  # points excluded by the path condition when the member was made
 
     @property
     def value(self):
         from .sfun import SFun
 
-        r = SFun.map(lambda m: m.value, self._fun)
+        if self._dc is not None and any(self._dc):
+            # at points the path condition excludes the value is irrelevant: take the argument itself, which keeps the
+            # value an affine function of the argument bits whenever the enumeration is the identity on what remains
+            r = SFun(self._fun.support, [x if dc else m.value for m, x, dc in zip(self._fun.table, self._raw, self._dc)]).simplify()
+        else:
+            r = SFun.map(lambda m: m.value, self._fun)
         return r.to_sint() if isinstance(r, SFun) else r
 
     def _concretise(self):
@@ -319,7 +326,12 @@ def _enum_call(cls, value, *a, **k):
     from .sfun import SFun, MAXSUP
 
     f = None
-    for cand in (value, value.under_pc() if isinstance(value, SInt) else value):
+    for attempt in (0, 1):
+        try:
+            cand = value if attempt == 0 or not isinstance(value, SInt) else value.under_pc()
+        except core.Undecided as e:
+            core.unpoison(e)
+            break
         if not is_sym(cand):
             return _orig_enum_call(cls, cand)
         try:
@@ -352,11 +364,21 @@ def _enum_call(cls, value, *a, **k):
         if (bool(bad.to_bit()) if isinstance(bad, SFun) else bad):  # forks: this value makes the Enum call raise
             raise exc(f"symbolic value is not a valid {cls.__qualname__}")
     good = next(t for t in table if not isinstance(t, _Raises))
-    table = [good if isinstance(t, _Raises) else t for t in table]  # infeasible points on this path
-    if all(t is table[0] for t in table):
-        return table[0]
-    # normalise under the path condition: points excluded by it may remain, they are never observable
-    return SymMember(cls, SFun(f.support, table))
+    dontcare = [isinstance(t, _Raises) for t in table]  # excluded on this path by the forks above
+    table = [good if isinstance(t, _Raises) else t for t in table]
+    # points excluded by earlier constraints over (a subset of) the same atoms, e.g. the range restriction of an input
+    sup = set(f.support)
+    for c in core.C.pc_other:
+        if core.base_support([c]) <= sup:
+            for j in range(len(table)):
+                if not dontcare[j]:
+                    env = {a: (j >> i) & 1 for i, a in enumerate(f.support)}
+                    if not core.peval(c, env):
+                        dontcare[j] = True
+    live = [t for t, dc in zip(table, dontcare) if not dc]
+    if live and all(t is live[0] for t in live):
+        return live[0]
+    return SymMember(cls, SFun(f.support, table), [int(x) for x in f.table], dontcare)
 
 
 def install(modules=None):
